@@ -244,24 +244,22 @@ Proof.
 Qed.
 
 Lemma lcd_scan_flags seen l :
-  (existsb (fun o => negb (fst o)) (lcd_scan seen l), existsb (fun o => fst o) (lcd_scan seen l))
-  = lcd_flags seen l.
+  (existsb (fun o => negb (o_i2c o)) (lcd_scan seen l), existsb o_i2c (lcd_scan seen l))
+  = lcd_flags l.
 Proof.
   revert seen. induction l as [| n r IH]; intro seen; [reflexivity |].
   destruct n as [x | x | x | | | bs | b | b | bs]; cbn [lcd_scan lcd_flags]; try apply IH.
-  - destruct (zmem x seen) eqn:E; [apply IH |].
-    cbn [existsb fst negb orb]. specialize (IH (x :: seen)).
-    destruct (lcd_flags (x :: seen) r) as [a b]. inversion IH; subst. reflexivity.
-  - destruct (zmem x seen) eqn:E; [apply IH |].
-    cbn [existsb fst negb orb]. specialize (IH (x :: seen)).
-    destruct (lcd_flags (x :: seen) r) as [a b]. inversion IH; subst. reflexivity.
+  - cbn [existsb o_i2c negb orb]. specialize (IH (x :: seen)).
+    destruct (lcd_flags r) as [a b]. inversion IH; subst. reflexivity.
+  - cbn [existsb o_i2c negb orb]. specialize (IH (x :: seen)).
+    destruct (lcd_flags r) as [a b]. inversion IH; subst. reflexivity.
 Qed.
 
-Lemma lcd_objs_par p : existsb (fun o => negb (fst o)) (lcd_objs p) = par_used p.
+Lemma lcd_objs_par p : existsb (fun o => negb (o_i2c o)) (lcd_objs p) = par_used p.
 Proof.
   unfold lcd_objs, par_used. now rewrite <- (lcd_scan_flags [] (setup p)).
 Qed.
-Lemma lcd_objs_i2c p : existsb (fun o => fst o) (lcd_objs p) = i2c_used p.
+Lemma lcd_objs_i2c p : existsb o_i2c (lcd_objs p) = i2c_used p.
 Proof.
   unfold lcd_objs, i2c_used. now rewrite <- (lcd_scan_flags [] (setup p)).
 Qed.
@@ -286,21 +284,20 @@ Proof. intro H. unfold deep, all_lists. cbn [existsb]. now rewrite H. Qed.
 Lemma deep_loop f p : any_list f (loop p) = true -> deep f p = true.
 Proof. intro H. unfold deep, all_lists. cbn [existsb]. rewrite H. now rewrite orb_true_r. Qed.
 
-Lemma lcd_flags_sound seen l :
-  (fst (lcd_flags seen l) = true -> existsb is_par l = true) /\
-  (snd (lcd_flags seen l) = true -> existsb is_i2c l = true).
+(* every top-level LCD declaration of setup sets the flag of its interface *)
+Lemma lcd_flags_spec l : lcd_flags l = (existsb is_par l, existsb is_i2c l).
 Proof.
-  revert seen. induction l as [| n r IH]; intro seen; [cbn; split; discriminate |].
-  destruct n as [x | x | x | | | bs | b | b | bs]; cbn [lcd_flags existsb is_par is_i2c orb]; try apply IH.
-  - destruct (zmem x seen).
-    + split; [reflexivity | apply IH].
-    + specialize (IH (x :: seen)).
-      destruct (lcd_flags (x :: seen) r) as [a b]. cbn [fst snd] in *. split; [reflexivity | apply IH].
-  - destruct (zmem x seen).
-    + split; [apply IH | reflexivity].
-    + specialize (IH (x :: seen)).
-      destruct (lcd_flags (x :: seen) r) as [a b]. cbn [fst snd] in *. split; [apply IH | reflexivity].
+  induction l as [| n r IH]; [reflexivity |].
+  destruct n as [x | x | x | | | bs | b | b | bs];
+    cbn [lcd_flags existsb is_par is_i2c orb]; try exact IH.
+  - rewrite IH. reflexivity.
+  - rewrite IH. reflexivity.
 Qed.
+
+Lemma par_used_top p : par_used p = existsb is_par (setup p).
+Proof. unfold par_used. now rewrite lcd_flags_spec. Qed.
+Lemma i2c_used_top p : i2c_used p = existsb is_i2c (setup p).
+Proof. unfold i2c_used. now rewrite lcd_flags_spec. Qed.
 
 Lemma servo_used_deep p : servo_used p = true -> deep is_servo p = true.
 Proof.
@@ -310,13 +307,11 @@ Proof.
 Qed.
 Lemma par_used_deep p : par_used p = true -> deep is_par p = true.
 Proof.
-  unfold par_used. intro H. apply deep_setup, top_in_deep_list.
-  exact (proj1 (lcd_flags_sound [] (setup p)) H).
+  rewrite par_used_top. intro H. apply deep_setup, top_in_deep_list, H.
 Qed.
 Lemma i2c_used_deep p : i2c_used p = true -> deep is_i2c p = true.
 Proof.
-  unfold i2c_used. intro H. apply deep_setup, top_in_deep_list.
-  exact (proj2 (lcd_flags_sound [] (setup p)) H).
+  rewrite i2c_used_top. intro H. apply deep_setup, top_in_deep_list, H.
 Qed.
 
 (* whatever is included is also requested: for every program *)
@@ -425,84 +420,140 @@ Proof.
     apply zmem_In in E. exfalso. exact (H y Hy E).
 Qed.
 
-Lemma existsb_ext_in {A} (f g : A -> bool) l :
-  (forall x, In x l -> f x = g x) -> existsb f l = existsb g l.
-Proof.
-  induction l as [| a r IH]; [reflexivity |]. intro H. cbn [existsb].
-  rewrite (H a (or_introl eq_refl)), IH; [reflexivity |]. intros x Hx. apply H. now right.
-Qed.
-
-Definition fresh (seen : list Z) (x : Z) : bool := negb (zmem x seen).
-
-(* under name consistency the scan sees every interface that is declared under a fresh name *)
-Lemma lcd_flags_consistent l : forall seen,
-  consistent l ->
-  lcd_flags seen l = (existsb (fresh seen) (par_names l), existsb (fresh seen) (i2c_names l)).
-Proof.
-  induction l as [| n r IH]; intros seen Hc; [reflexivity |].
-  destruct n as [x | x | x | | | bs | b | b | bs];
-    cbn [lcd_flags par_names i2c_names]; try (apply IH; exact Hc).
-  - (* parallel *)
-    assert (Hr : consistent r).
-    { intros y Hy. apply (Hc y). cbn [par_names]. now right. }
-    assert (Hx : ~ In x (i2c_names r)).
-    { apply (Hc x). cbn [par_names]. now left. }
-    cbn [existsb]. unfold fresh at 1. destruct (zmem x seen) eqn:E; cbn [negb orb].
-    + apply IH, Hr.
-    + rewrite (IH (x :: seen) Hr). f_equal.
-      apply existsb_ext_in. intros y Hy. unfold fresh. cbn [zmem].
-      destruct (y =? x) eqn:Eyx; [| reflexivity].
-      apply Z.eqb_eq in Eyx. subst y. contradiction.
-  - (* i2c *)
-    assert (Hr : consistent r).
-    { intros y Hy Hin. apply (Hc y Hy). cbn [i2c_names]. now right. }
-    assert (Hx : ~ In x (par_names r)).
-    { intro Hin. apply (Hc x Hin). cbn [i2c_names]. now left. }
-    cbn [existsb]. unfold fresh at 2. destruct (zmem x seen) eqn:E; cbn [negb orb].
-    + apply IH, Hr.
-    + rewrite (IH (x :: seen) Hr). f_equal.
-      apply existsb_ext_in. intros y Hy. unfold fresh. cbn [zmem].
-      destruct (y =? x) eqn:Eyx; [| reflexivity].
-      apply Z.eqb_eq in Eyx. subst y. contradiction.
-Qed.
-
-Lemma existsb_true_nonempty {A} (l : list A) : existsb (fun _ => true) l = nonempty l.
-Proof. destruct l; reflexivity. Qed.
-
-Lemma nonempty_par_names l : nonempty (par_names l) = existsb is_par l.
-Proof.
-  induction l as [| n r IH]; [reflexivity |].
-  destruct n; cbn [par_names existsb is_par orb]; try exact IH. reflexivity.
-Qed.
-Lemma nonempty_i2c_names l : nonempty (i2c_names l) = existsb is_i2c l.
-Proof.
-  induction l as [| n r IH]; [reflexivity |].
-  destruct n; cbn [i2c_names existsb is_i2c orb]; try exact IH. reflexivity.
-Qed.
-
-Lemma flags_top l :
-  consistent l -> lcd_flags [] l = (existsb is_par l, existsb is_i2c l).
-Proof.
-  intro Hc. rewrite (lcd_flags_consistent l [] Hc).
-  unfold fresh. cbn [zmem negb].
-  now rewrite !existsb_true_nonempty, nonempty_par_names, nonempty_i2c_names.
-Qed.
-
 (* the guarded agreement: the three lists are equal as lists *)
 Theorem agree_partial p :
   decls_at_documented_positions p = true ->
   required p = includes p /\ includes p = instantiated p.
 Proof.
   unfold decls_at_documented_positions. intro H.
-  apply andb_true_iff in H as [H Hc]. apply andb_true_iff in H as [Hs Hl].
-  apply lcd_names_consistent_spec in Hc.
+  apply andb_true_iff in H as [Hs Hl].
   split; [| apply includes_eq_instantiated].
-  unfold required, includes, par_used, i2c_used.
+  unfold required, includes.
   rewrite (servos_documented_deep p Hs),
     (lcds_documented_deep is_par p is_par_lcd Hl),
     (lcds_documented_deep is_i2c p is_i2c_lcd Hl),
-    (flags_top _ Hc).
+    par_used_top, i2c_used_top.
   reflexivity.
+Qed.
+
+(* the region the repaired finding F-C14-lcd-rebind used to exclude (a name bound to both
+   interfaces) is inside the agreement now *)
+Theorem lcd_rebind_agree p :
+  servos_documented p = true -> lcds_documented p = true ->
+  lcd_names_consistent (setup p) = false ->
+  required p = includes p /\ includes p = instantiated p.
+Proof.
+  intros Hs Hl _. apply agree_partial. unfold decls_at_documented_positions.
+  now rewrite Hs, Hl.
+Qed.
+
+(* a library header is included exactly when a declaration needing it is a top-level statement
+   of the code before the main loop (LCD) / of that code or of the loop body (Servo) *)
+Theorem includes_iff_top p l :
+  In l (includes p) <->
+  match l with
+  | LServo => existsb is_servo (setup p) = true \/ existsb is_servo (loop p) = true
+  | LLiquidCrystal => existsb is_par (setup p) = true
+  | LLiquidCrystalI2C => existsb is_i2c (setup p) = true
+  end.
+Proof.
+  unfold includes. rewrite In_canon. destruct l.
+  - unfold servo_used. apply orb_true_iff.
+  - now rewrite par_used_top.
+  - now rewrite i2c_used_top.
+Qed.
+
+(* ------------------------------------------------------------------ one object per LCD declaration *)
+Definition obj_decl (o : lcd_obj) : bool * Z := (o_i2c o, o_name o).
+Definition obj_ident (o : lcd_obj) : Z * Z := (o_name o, o_index o).
+Definition lcd_names (l : list node) : list Z := map snd (lcd_decls l).
+
+Lemma lcd_scan_decls seen l : map obj_decl (lcd_scan seen l) = lcd_decls l.
+Proof.
+  revert seen. induction l as [| n r IH]; intro seen; [reflexivity |].
+  destruct n as [x | x | x | | | bs | b | b | bs]; cbn [lcd_scan lcd_decls map]; try apply IH.
+  - unfold obj_decl at 1. cbn [o_i2c o_name]. now rewrite IH.
+  - unfold obj_decl at 1. cbn [o_i2c o_name]. now rewrite IH.
+Qed.
+
+Lemma count_nonneg x l : 0 <= count x l.
+Proof. induction l as [| y r IH]; cbn [count]; [lia |]. destruct (x =? y); lia. Qed.
+
+Lemma count_cons_same x l : count x (x :: l) = 1 + count x l.
+Proof. cbn [count]. now rewrite Z.eqb_refl. Qed.
+
+Lemma count_cons_le x y l : count x l <= count x (y :: l).
+Proof. cbn [count]. destruct (x =? y); lia. Qed.
+
+Lemma count_app x a b : count x (a ++ b) = count x a + count x b.
+Proof. induction a as [| y r IH]; cbn [count app]; [lia |]. rewrite IH. lia. Qed.
+
+(* the binding index of an object is at least the number of declarations seen before *)
+Lemma lcd_scan_index_ge seen l o :
+  In o (lcd_scan seen l) -> count (o_name o) seen <= o_index o.
+Proof.
+  revert seen. induction l as [| n r IH]; intros seen Hin; [destruct Hin |].
+  destruct n as [x | x | x | | | bs | b | b | bs]; cbn [lcd_scan] in Hin; try (apply IH; exact Hin).
+  - destruct Hin as [<- | Hin]; [cbn [o_name o_index]; lia |].
+    specialize (IH _ Hin). pose proof (count_cons_le (o_name o) x seen). lia.
+  - destruct Hin as [<- | Hin]; [cbn [o_name o_index]; lia |].
+    specialize (IH _ Hin). pose proof (count_cons_le (o_name o) x seen). lia.
+Qed.
+
+Lemma lcd_scan_idents_nodup seen l : NoDup (map obj_ident (lcd_scan seen l)).
+Proof.
+  revert seen. induction l as [| n r IH]; intro seen; [constructor |].
+  assert (Hfresh : forall x, ~ In (x, count x seen) (map obj_ident (lcd_scan (x :: seen) r))).
+  { intros x Hin. apply in_map_iff in Hin as [o [Ho Hin]].
+    unfold obj_ident in Ho. injection Ho as Hn Hi. apply lcd_scan_index_ge in Hin.
+    rewrite Hn, count_cons_same in Hin. lia. }
+  destruct n as [x | x | x | | | bs | b | b | bs]; cbn [lcd_scan map]; try apply IH.
+  - constructor; [exact (Hfresh x) | apply IH].
+  - constructor; [exact (Hfresh x) | apply IH].
+Qed.
+
+(* scanning a concatenation: the second part continues with the counts of the first *)
+Lemma lcd_scan_app a : forall seen b,
+  exists seen', lcd_scan seen (a ++ b) = lcd_scan seen a ++ lcd_scan seen' b /\
+                forall x, count x seen' = count x (lcd_names a) + count x seen.
+Proof.
+  induction a as [| n r IH]; intros seen b.
+  - exists seen. split; [reflexivity | intro x; cbn; lia].
+  - destruct n as [y | y | y | | | bs | bd | bd | bs]; cbn [app lcd_scan];
+      try (destruct (IH seen b) as [s' [E C]]; exists s'; split; [exact E | exact C]).
+    + destruct (IH (y :: seen) b) as [s' [E C]]. exists s'. split; [now rewrite E |].
+      intro x. rewrite C. unfold lcd_names. cbn [lcd_decls map snd count]. lia.
+    + destruct (IH (y :: seen) b) as [s' [E C]]. exists s'. split; [now rewrite E |].
+      intro x. rewrite C. unfold lcd_names. cbn [lcd_decls map snd count]. lia.
+Qed.
+
+(* every LCD declaration before the main loop defines an object of the class of its interface,
+   and the objects are pairwise distinct identifiers *)
+Theorem lcd_object_per_declaration p :
+  map obj_decl (lcd_objs p) = lcd_decls (setup p) /\
+  NoDup (map obj_ident (lcd_objs p)).
+Proof.
+  unfold lcd_objs. split; [apply lcd_scan_decls | apply lcd_scan_idents_nodup].
+Qed.
+
+(* the object a declaration defines carries, as its binding index, the number of earlier
+   declarations of the same name: a re-bound name gets a further object *)
+Theorem lcd_binding_index p pre post x :
+  setup p = pre ++ NLcdPar x :: post \/ setup p = pre ++ NLcdI2c x :: post ->
+  exists i2c, In (mkObj i2c x (count x (lcd_names pre))) (lcd_objs p) /\
+              (i2c = true <-> setup p = pre ++ NLcdI2c x :: post).
+Proof.
+  unfold lcd_objs. intros [E | E]; rewrite E.
+  - exists false. destruct (lcd_scan_app pre [] (NLcdPar x :: post)) as [s' [Es C]].
+    split.
+    + rewrite Es. apply in_or_app. right. cbn [lcd_scan]. left.
+      rewrite C. cbn [count]. now rewrite Z.add_0_r.
+    + split; [discriminate |]. intro H. apply app_inv_head in H. discriminate.
+  - exists true. destruct (lcd_scan_app pre [] (NLcdI2c x :: post)) as [s' [Es C]].
+    split.
+    + rewrite Es. apply in_or_app. right. cbn [lcd_scan]. left.
+      rewrite C. cbn [count]. now rewrite Z.add_0_r.
+    + split; [intros _; reflexivity | reflexivity].
 Qed.
 
 (* boolean form of the relation *)
@@ -575,12 +626,17 @@ Theorem lcd_in_loop_refuted :
             lcds_documented p = false.
 Proof. exists w_lcd_in_loop. vm_compute. repeat split; auto. Qed.
 
-(* inside the documented positions, but one name bound to both interfaces: a genuine failure *)
-Theorem lcd_rebind_refuted :
-  exists p, servos_documented p = true /\ lcds_documented p = true /\
-            required p = [LLiquidCrystal; LLiquidCrystalI2C] /\
-            includes p = [LLiquidCrystal] /\ instantiated p = [LLiquidCrystal].
-Proof. exists w_lcd_rebind. vm_compute. repeat split; auto. Qed.
+(* the witness of the repaired finding: inside the documented positions, one name bound to both
+   interfaces - both libraries are requested, included and instantiated, two objects *)
+Lemma lcd_rebind_nonvacuous :
+  let p := w_lcd_rebind in
+  servos_documented p = true /\ lcds_documented p = true /\
+  lcd_names_consistent (setup p) = false /\
+  required p = [LLiquidCrystal; LLiquidCrystalI2C] /\
+  headers p = [HLiquidCrystal; HWire; HLiquidCrystalI2C] /\
+  instantiated p = [LLiquidCrystal; LLiquidCrystalI2C] /\
+  lcd_objs p = [mkObj false 0 0; mkObj true 0 1].
+Proof. vm_compute. repeat split; reflexivity. Qed.
 
 (* ------------------------------------------------------------------ non-vacuity witnesses *)
 Lemma guard_nonvacuous :
@@ -594,7 +650,7 @@ Lemma guard_nonvacuous :
   required p = [LServo; LLiquidCrystal; LLiquidCrystalI2C] /\
   headers p = [HServo; HLiquidCrystal; HWire; HLiquidCrystalI2C] /\
   servo_objs p = [0; 2; 5] /\
-  lcd_objs p = [(false, 1); (true, 3); (false, 4)].
+  lcd_objs p = [mkObj false 1 0; mkObj true 3 0; mkObj false 4 0; mkObj false 1 1].
 Proof. vm_compute. repeat split; reflexivity. Qed.
 
 Lemma needless_nonvacuous :
